@@ -75,6 +75,13 @@ func (s *Service) proxyToSingleEndpoint(ctx context.Context, w http.ResponseWrit
 		s.RecordFailure(ctx, endpoint, time.Since(stats.StartTime), err)
 		return fmt.Errorf("failed to create proxy request: %w", err)
 	}
+	// The body handed over here was buffered by the retry handler, so its length is known even
+	// though net/http cannot see it through the wrapper. Declaring it keeps the request framed by
+	// Content-Length; a body of unknown length is sent chunked - or, for CONNECT, not framed at
+	// all, which leaves its bytes on the pooled connection in front of the next client's request.
+	if r.ContentLength > 0 {
+		proxyReq.ContentLength = r.ContentLength
+	}
 
 	rlog.Debug("created proxy request")
 
